@@ -48,6 +48,10 @@ def gen_case(rng, tier):
     Z0 = float(rng.uniform(-5, 5))
     kind = "deriv" if rng.random() < 0.4 else "admt"
     case = dict(kind=kind, nx=nx, ny=ny, dx=dx, dy=dy, R0=R0, Z0=Z0)
+    if rng.random() < 0.2:
+        # integer-valued vertex coordinates (pixel / millimetre grids), handed over as an integer array or as int tuples
+        case.update(dx=float(2 * rng.integers(1, 4)), dy=float(2 * rng.integers(1, 4)), R0=float(rng.integers(1, 20)),
+                    Z0=float(rng.integers(-10, 10)), vertex_kind=["int_array", "int_tuples", "float32_array"][int(rng.integers(3))])
     # polynomial coefficients in normalised coordinates u=(x-xc)/Lx, v=(y-yc)/Ly, |u|,|v|<=1/2
     case["f"] = [float(c) for c in rng.normal(size=10)]          # 1,u,v,u2,uv,v2,u3,u2v,uv2,v3
     if kind == "admt":
@@ -70,7 +74,10 @@ def gen_case(rng, tier):
 
 def fixed_cases(tier):
     base = dict(nx=5, ny=6, dx=0.02, dy=0.035, R0=1.5, Z0=-0.3, f=[0.3, 1.0, -0.7, 0.5, 0.8, -0.4, 0, 0, 0, 0])
-    out = [dict(base, kind="deriv"), dict(base, kind="deriv", nx=2, ny=2), dict(base, kind="deriv", nx=2, ny=7),
+    ib = dict(base, dx=2.0, dy=4.0, R0=3.0, Z0=-2.0)
+    out = [dict(ib, kind="deriv", vertex_kind="int_tuples"), dict(ib, kind="deriv", vertex_kind="int_array"),
+           dict(ib, kind="admt", nx=7, ny=8, vertex_kind="int_array", psi_kind="quadratic", psi=[0.1, 2.0, 1.0, 0.3, 0.45, -0.2, 0, 0, 0, 0], anisotropy=1),
+           dict(base, kind="deriv"), dict(base, kind="deriv", nx=2, ny=2), dict(base, kind="deriv", nx=2, ny=7),
            dict(base, kind="admt", psi_kind="quadratic", psi=[0.1, 2.0, 1.0, 0.3, 0.45, -0.2, 0, 0, 0, 0], anisotropy=1),
            dict(base, kind="admt", nx=8, ny=9, psi_kind="quadratic", psi=[0.1, 2.0, 1.0, 0.3, 0.45, -0.2, 0, 0, 0, 0], anisotropy=10),
            dict(base, kind="admt", nx=8, ny=9, psi_kind="cubic", psi=[0.1, 2.0, 1.0, 0.3, 0.45, -0.2, .1, -.1, .2, .05], anisotropy=1.0),
@@ -109,6 +116,15 @@ def build_grid(case):
             i += 1
     verts = np.array(verts)
     cen = verts.mean(axis=1)
+    vk = case.get("vertex_kind")
+    if vk == "int_array":
+        assert np.all(verts == np.round(verts))
+        verts = verts.astype(np.int64)
+    elif vk == "int_tuples":
+        assert np.all(verts == np.round(verts))
+        verts = [[(int(a), int(b)) for a, b in cell] for cell in verts]
+    elif vk == "float32_array":
+        verts = verts.astype(np.float32)
     return verts, m12, m21, cen[:, 0], cen[:, 1], np.array(ixs), np.array(iys)
 
 
@@ -117,7 +133,7 @@ def run_case(case, ctx):
     nx, ny, dx, dy = case["nx"], case["ny"], case["dx"], case["dy"]
     verts, m12, m21, x, y, ix, iy = build_grid(case)
     ops = generate_derivative_operators(verts, m12, m21)
-    ctx.cls(case["kind"])
+    ctx.cls(case["kind"] + (":" + case["vertex_kind"] if case.get("vertex_kind") else ""))
     xc, yc = x.mean(), y.mean()
     Lx, Ly = nx * dx, ny * dy
     n = nx * ny
